@@ -4,6 +4,19 @@ SIM_NOTE = ("trusted base: the behavioural nRF24L01+ simulator (vlib/sim, self-t
             "driver; chip assumptions (a)-(e) of DESIGN.md 2.6")
 
 CHECKS = [
+    {"property_id": "C10", "level": "exploration",
+     "text": "Hypothesis op lists mixing traffic (peer sends to any pipe, write/CE/send to listening, absent or ACK-payload peers, "
+             "load_ack, role toggles) with every accessor in all its argument forms, in dynamic / static per-pipe / mixed payload "
+             "modes; each accessor is compared with the simulated chip's FIFOs, latched flags, STATUS byte of the last "
+             "transaction, retransmission count in the air log and IRQ pin; sampled histories only",
+     "design_ref": "4/C10", "note": SIM_NOTE + "; the executor lets radio activity finish before each op so no event races an accessor",
+     "technique": "property-based testing: Hypothesis-generated traffic/accessor histories against simulated-chip ground truth"},
+    {"property_id": "C20", "level": "exploration",
+     "text": "the C01/C02/C03/C08/C10 harnesses re-run with the lite driver as transmitter, receiver and both (their enumerated "
+             "parts at reduced depth, their generated parts at reduced counts) against the lite variants of the reference models, "
+             "plus exhaustive enumeration of load_ack() over lengths 0..40 x pipes -1..6 x TX FIFO fill 0..3 x ack enabled or not",
+     "design_ref": "4/C20", "note": SIM_NOTE + "; documented lite reductions from docs/troubleshooting.rst are encoded in the lite reference",
+     "technique": "differential/model-based property testing of the lite driver with the parent properties' generators and oracles"},
     {"property_id": "C01", "level": "exploration",
      "text": "Hypothesis-generated link configurations x payload lists, executed on two simulated radios through the public API; "
              "the received sequence, pipe, any(), the W_TX_PAYLOAD bytes on the SPI bus and the caller's buffers are compared "
